@@ -127,3 +127,86 @@ pub fn auto(text: &str) -> Result<AutoInfo, String> {
         .map_err(|p| format!("panic:{p}")),
     }
 }
+
+/// the wrapper's 30 + 30 typed accessors: for every type, what as_mtNNN() gives (JSON of the message, or None)
+pub fn accessors(text: &str) -> Result<Vec<(&'static str, Option<Value>)>, String> {
+    let p = match guarded(|| SwiftParser::parse_auto(text)) {
+        Err(pn) => return Err(format!("panic:{pn}")),
+        Ok(Err(e)) => return Err(format!("error:{}", serde_json::to_value(&e).map(|v| v.to_string()).unwrap_or_default())),
+        Ok(Ok(p)) => p,
+    };
+    guarded(|| vec![
+        ("101", p.as_mt101().map(|m| serde_json::to_value(m).unwrap_or(Value::Null))),
+        ("103", p.as_mt103().map(|m| serde_json::to_value(m).unwrap_or(Value::Null))),
+        ("104", p.as_mt104().map(|m| serde_json::to_value(m).unwrap_or(Value::Null))),
+        ("107", p.as_mt107().map(|m| serde_json::to_value(m).unwrap_or(Value::Null))),
+        ("110", p.as_mt110().map(|m| serde_json::to_value(m).unwrap_or(Value::Null))),
+        ("111", p.as_mt111().map(|m| serde_json::to_value(m).unwrap_or(Value::Null))),
+        ("112", p.as_mt112().map(|m| serde_json::to_value(m).unwrap_or(Value::Null))),
+        ("190", p.as_mt190().map(|m| serde_json::to_value(m).unwrap_or(Value::Null))),
+        ("191", p.as_mt191().map(|m| serde_json::to_value(m).unwrap_or(Value::Null))),
+        ("192", p.as_mt192().map(|m| serde_json::to_value(m).unwrap_or(Value::Null))),
+        ("196", p.as_mt196().map(|m| serde_json::to_value(m).unwrap_or(Value::Null))),
+        ("199", p.as_mt199().map(|m| serde_json::to_value(m).unwrap_or(Value::Null))),
+        ("200", p.as_mt200().map(|m| serde_json::to_value(m).unwrap_or(Value::Null))),
+        ("202", p.as_mt202().map(|m| serde_json::to_value(m).unwrap_or(Value::Null))),
+        ("204", p.as_mt204().map(|m| serde_json::to_value(m).unwrap_or(Value::Null))),
+        ("205", p.as_mt205().map(|m| serde_json::to_value(m).unwrap_or(Value::Null))),
+        ("210", p.as_mt210().map(|m| serde_json::to_value(m).unwrap_or(Value::Null))),
+        ("290", p.as_mt290().map(|m| serde_json::to_value(m).unwrap_or(Value::Null))),
+        ("291", p.as_mt291().map(|m| serde_json::to_value(m).unwrap_or(Value::Null))),
+        ("292", p.as_mt292().map(|m| serde_json::to_value(m).unwrap_or(Value::Null))),
+        ("296", p.as_mt296().map(|m| serde_json::to_value(m).unwrap_or(Value::Null))),
+        ("299", p.as_mt299().map(|m| serde_json::to_value(m).unwrap_or(Value::Null))),
+        ("900", p.as_mt900().map(|m| serde_json::to_value(m).unwrap_or(Value::Null))),
+        ("910", p.as_mt910().map(|m| serde_json::to_value(m).unwrap_or(Value::Null))),
+        ("920", p.as_mt920().map(|m| serde_json::to_value(m).unwrap_or(Value::Null))),
+        ("935", p.as_mt935().map(|m| serde_json::to_value(m).unwrap_or(Value::Null))),
+        ("940", p.as_mt940().map(|m| serde_json::to_value(m).unwrap_or(Value::Null))),
+        ("941", p.as_mt941().map(|m| serde_json::to_value(m).unwrap_or(Value::Null))),
+        ("942", p.as_mt942().map(|m| serde_json::to_value(m).unwrap_or(Value::Null))),
+        ("950", p.as_mt950().map(|m| serde_json::to_value(m).unwrap_or(Value::Null))),
+    ]).map_err(|pn| format!("panic:{pn}"))
+}
+
+/// into_mtNNN() of the wrapper for one type
+pub fn accessor_into(text: &str, t: &str) -> Result<Option<Value>, String> {
+    let p = match guarded(|| SwiftParser::parse_auto(text)) {
+        Err(pn) => return Err(format!("panic:{pn}")),
+        Ok(Err(e)) => return Err(format!("error:{}", serde_json::to_value(&e).map(|v| v.to_string()).unwrap_or_default())),
+        Ok(Ok(p)) => p,
+    };
+    guarded(move || match t {
+        "101" => p.into_mt101().map(|m| serde_json::to_value(&m).unwrap_or(Value::Null)),
+        "103" => p.into_mt103().map(|m| serde_json::to_value(&m).unwrap_or(Value::Null)),
+        "104" => p.into_mt104().map(|m| serde_json::to_value(&m).unwrap_or(Value::Null)),
+        "107" => p.into_mt107().map(|m| serde_json::to_value(&m).unwrap_or(Value::Null)),
+        "110" => p.into_mt110().map(|m| serde_json::to_value(&m).unwrap_or(Value::Null)),
+        "111" => p.into_mt111().map(|m| serde_json::to_value(&m).unwrap_or(Value::Null)),
+        "112" => p.into_mt112().map(|m| serde_json::to_value(&m).unwrap_or(Value::Null)),
+        "190" => p.into_mt190().map(|m| serde_json::to_value(&m).unwrap_or(Value::Null)),
+        "191" => p.into_mt191().map(|m| serde_json::to_value(&m).unwrap_or(Value::Null)),
+        "192" => p.into_mt192().map(|m| serde_json::to_value(&m).unwrap_or(Value::Null)),
+        "196" => p.into_mt196().map(|m| serde_json::to_value(&m).unwrap_or(Value::Null)),
+        "199" => p.into_mt199().map(|m| serde_json::to_value(&m).unwrap_or(Value::Null)),
+        "200" => p.into_mt200().map(|m| serde_json::to_value(&m).unwrap_or(Value::Null)),
+        "202" => p.into_mt202().map(|m| serde_json::to_value(&m).unwrap_or(Value::Null)),
+        "204" => p.into_mt204().map(|m| serde_json::to_value(&m).unwrap_or(Value::Null)),
+        "205" => p.into_mt205().map(|m| serde_json::to_value(&m).unwrap_or(Value::Null)),
+        "210" => p.into_mt210().map(|m| serde_json::to_value(&m).unwrap_or(Value::Null)),
+        "290" => p.into_mt290().map(|m| serde_json::to_value(&m).unwrap_or(Value::Null)),
+        "291" => p.into_mt291().map(|m| serde_json::to_value(&m).unwrap_or(Value::Null)),
+        "292" => p.into_mt292().map(|m| serde_json::to_value(&m).unwrap_or(Value::Null)),
+        "296" => p.into_mt296().map(|m| serde_json::to_value(&m).unwrap_or(Value::Null)),
+        "299" => p.into_mt299().map(|m| serde_json::to_value(&m).unwrap_or(Value::Null)),
+        "900" => p.into_mt900().map(|m| serde_json::to_value(&m).unwrap_or(Value::Null)),
+        "910" => p.into_mt910().map(|m| serde_json::to_value(&m).unwrap_or(Value::Null)),
+        "920" => p.into_mt920().map(|m| serde_json::to_value(&m).unwrap_or(Value::Null)),
+        "935" => p.into_mt935().map(|m| serde_json::to_value(&m).unwrap_or(Value::Null)),
+        "940" => p.into_mt940().map(|m| serde_json::to_value(&m).unwrap_or(Value::Null)),
+        "941" => p.into_mt941().map(|m| serde_json::to_value(&m).unwrap_or(Value::Null)),
+        "942" => p.into_mt942().map(|m| serde_json::to_value(&m).unwrap_or(Value::Null)),
+        "950" => p.into_mt950().map(|m| serde_json::to_value(&m).unwrap_or(Value::Null)),
+        _ => None,
+    }).map_err(|pn| format!("panic:{pn}"))
+}
